@@ -263,6 +263,7 @@ def generate() -> None:
     body += "\nend Ptk.Gen.C10\n"
     G.write("C10Display.lean", body)
     generate_codecs()
+    generate_select()
 
 
 # ------------------------------------------------------------------ codecs (the byte level)
@@ -336,3 +337,88 @@ def generate_codecs() -> None:
 
 if __name__ == "__main__":
     generate()
+
+
+# ------------------------------------------------------------------ create_output(): decision table
+class FakeStream:
+    """a stream object as far as create_output / Vt100_Output.from_pty look at it"""
+
+    def __init__(self, tty):
+        self.tty = tty
+        self.encoding = "utf-8"
+
+    def isatty(self):
+        return self.tty
+
+    def fileno(self):
+        raise io.UnsupportedOperation("fileno")
+
+    def write(self, s):
+        pass
+
+    def flush(self):
+        pass
+
+
+def select_probe(arg, sys_out, sys_err, prefer, term):
+    """class name of the real create_output() for one combination (None / True / False = absent / tty / no tty)"""
+    import sys
+
+    from prompt_toolkit.output.defaults import create_output
+
+    def mk(x):
+        return None if x is None else FakeStream(x)
+
+    old = (sys.stdout, sys.stderr, os.environ.get("TERM"))
+    try:
+        sys.stdout, sys.stderr = mk(sys_out), mk(sys_err)
+        if term is None:
+            os.environ.pop("TERM", None)
+        else:
+            os.environ["TERM"] = term
+        return type(create_output(stdout=mk(arg), always_prefer_tty=prefer)).__name__
+    finally:
+        sys.stdout, sys.stderr = old[0], old[1]
+        if old[2] is None:
+            os.environ.pop("TERM", None)
+        else:
+            os.environ["TERM"] = old[2]
+
+
+SELECT_TERMS = ["xterm", "dumb", "unknown", "DUMB", None]
+
+
+def select_rows():
+    from prompt_toolkit.utils import is_dumb_terminal
+    rows = []
+    for arg in (None, True, False):
+        for so in (None, True, False):
+            for se in (None, True, False):
+                for prefer in (False, True):
+                    for term in SELECT_TERMS:
+                        rows.append((arg, so, se, prefer, bool(is_dumb_terminal(term or "")),
+                                     select_probe(arg, so, se, prefer, term)))
+    return rows
+
+
+def generate_select() -> None:
+    """never raises (this generator runs inside every property's check): a failing probe yields an empty
+    table and `createOutputProbeOk := false`"""
+    def ob(x):
+        return "none" if x is None else ("some true" if x else "some false")
+    try:
+        rows, ok = select_rows(), True
+    except Exception:
+        rows, ok = [], False
+    names = {"DummyOutput": 0, "PlainTextOutput": 1, "Vt100_Output": 2}
+    body = "namespace Ptk.Gen.C10\n\n"
+    body += ("/-- the real `create_output()` probed with fake stream objects: (stdout argument, sys.stdout, sys.stderr,\n"
+             "    always_prefer_tty, is_dumb_terminal($TERM), class returned: 0 DummyOutput, 1 PlainTextOutput,\n"
+             "    2 Vt100_Output, 9 anything else); a stream is `none` (None) or `some isatty` -/\n")
+    body += "def createOutputTable : List (Option Bool × Option Bool × Option Bool × Bool × Bool × Nat) := [\n  "
+    body += ",\n  ".join(f"({ob(a)}, {ob(so)}, {ob(se)}, {'true' if p else 'false'}, {'true' if d else 'false'}, "
+                          f"{names.get(cls, 9)})" for a, so, se, p, d, cls in rows)
+    body += "]\n"
+    body += f"def createOutputProbeOk : Bool := {'true' if ok else 'false'}\n"
+    body += "\nend Ptk.Gen.C10\n"
+    G.write("C10Select.lean", body)
